@@ -302,9 +302,13 @@ Linearizable ==
 
 \* C06: every sequence a reader can capture is the end of a group commit, and what it sees at
 \* that sequence contains every entry of every batch <= it and nothing above it
+\* (ends of CLIENT batches: a group commit must end where a batch ends - the published sequence
+\* never points inside a client's batch even if a group were cut there)
+BatchEnds == {0} \cup {wseq[w] + Len(BatchOf[w]) - 1 : w \in {x \in Writers : wseq[x] # 0}}
 BatchAtomic ==
-  /\ seq \in grpEnds
-  /\ \A r \in SnapReaders : pc[r] \in {"cap", "mem", "ret"} => rd[r].snap \in grpEnds
+  /\ seq \in grpEnds /\ seq \in BatchEnds
+  /\ \A r \in SnapReaders : pc[r] \in {"cap", "mem", "ret"} =>
+        rd[r].snap \in grpEnds /\ rd[r].snap \in BatchEnds
 
 SeqSane == seq <= Len(hist)
 
